@@ -170,6 +170,46 @@ func runC20(c *Ctx) {
 			ok = !ssau.ReachAfter(f, app[0], nil).Instr(tmp[0])
 		}
 		c.R.Check("G-order", "History.Append|temporary changes undone before caching", ok, c.pos(f.Pos()), "pending temporary changes are rolled back before a new height's change is cached")
+		// ... on every path: the append of a height's change is reached only after tempChanges was emptied (the
+		// reset itself, a helper that performs it, or the test that found it empty)
+		if len(app) == 1 {
+			isTmp := func(v ssa.Value) bool { return ssau.IsFieldOf(v, "History", "tempChanges") }
+			resets := func(g *ssa.Function) []ssa.Instruction {
+				var out []ssa.Instruction
+				for _, b := range g.Blocks {
+					for _, in := range b.Instrs {
+						if st, ok := in.(*ssa.Store); ok && isTmp(st.Addr) && ssau.IsNilConst(st.Val) {
+							out = append(out, st)
+						}
+					}
+				}
+				return out
+			}
+			cut := ssau.NewCut()
+			n := 0
+			for _, in := range resets(f) {
+				cut.AddInstr(in)
+				n++
+			}
+			for _, b := range f.Blocks {
+				for _, in := range b.Instrs {
+					if cl, ok := in.(*ssa.Call); ok {
+						if h := cl.Call.StaticCallee(); h != nil && h.Pkg == f.Pkg && h != f && len(h.Blocks) > 0 && len(resets(h)) > 0 {
+							cut.AddInstr(cl)
+							n++
+						}
+					}
+				}
+			}
+			for _, i := range ssau.Ifs(f) {
+				if m, arm := condCmp(isLenOf(func(v ssa.Value) bool { return isTmp(ssau.Unwrap(v)) }), isConstInt(0), token.GTR, false)(i); m {
+					cut.AddEdge(i.Block(), ssau.Arm(i, arm))
+					n++
+				}
+			}
+			okAll := n > 0 && !ssau.ReachFromEntry(f, cut).Instr(app[0].(ssa.Instruction))
+			c.R.Check("G-order", "History.Append|temporary changes emptied on every path to the append", okAll, c.posOf(app[0]), "a change of a height can be cached while temporary changes are still pending (they would be re-executed by the next Commit and never rolled back)")
+		}
 	}
 }
 
